@@ -266,8 +266,9 @@ func (c *Controller) ReleaseIPs(req *restful.Request, resp *restful.Response) {
 		var appTypePrefix string
 		if temp.AppType == "" {
 			appTypePrefix = util.StatefulsetPrefixKey
+		} else {
+			appTypePrefix = util.GetAppTypePrefix(temp.AppType)
 		}
-		appTypePrefix = util.GetAppTypePrefix(temp.AppType)
 		if appTypePrefix == "" {
 			httputil.BadRequest(resp, fmt.Errorf("unknown app type %q", temp.AppType))
 			return
